@@ -141,8 +141,10 @@ def sumL (xs : List Nat) : Nat := xs.foldl (· + ·) 0
 
 * **no invention**: a read never exceeds the amounts of the adds (same event) that have *started* before it returned:
   everything of earlier rounds, the other threads of this round, the reader's own earlier operations;
-* **expired never visible** (`n ≥ 2`, stall condition): … nor the part of them whose bucket is not deprecated at the
-  reader's clock reading (and lies in the view's start range) — above that bound, in a round where a slot reset ran
+* **expired never visible** (`n ≥ 2`, stall condition): … nor the part of them whose bucket is one of the `n` aligned
+  buckets ending at the reader's clock reading (`now - start < I`: `Count` refreshes the current bucket first, which
+  shares its slot with the bucket exactly one interval old; a view's start range excludes it) and lies in the view's
+  start range — above that bound, in a round where a slot reset ran
   next to another thread, the verdict is `known:stale-counters-visible`;
 * **nothing lost without overlap**: a read is at least the amounts recorded *for sure* (in rounds without a reset next to
   another thread) in its strict window by operations that had returned before the round / before it in its own thread;
@@ -192,7 +194,7 @@ def judge (s : St) (results : List (List (Nat × Option Nat))) (pts : String) (f
       let rg := rangeOf L s.sh.Iv now
       let inWin (b : Nat) (strict : Bool) : Bool :=
         !deprecated I now b && (!strict || decide (now - b < I)) && (!isView || decide (rg.1 ≤ b ∧ b ≤ rg.2))
-      let upper := sumL (started.filterMap fun a => if a.2.1 = ev && (a.2.2.2.2 || inWin (cbs L a.1) false) then some a.2.2.1 else none)
+      let upper := sumL (started.filterMap fun a => if a.2.1 = ev && (a.2.2.2.2 || inWin (cbs L a.1) true) then some a.2.2.1 else none)
       let lower := sumL (before.filterMap fun a => if a.2.1 = ev && a.2.2.2.1 && inWin (cbs L a.1) true then some a.2.2.1 else none)
       if v > upper then
         if !stallOk then none
@@ -258,7 +260,11 @@ def step (oracle : Bool) (s : St) (ts : List String) (line : String) : St × Opt
             | some res, some pts, some fin, some ck =>
               let (v, nh) := judge s res pts fin ck
               ({ s with threads := #[], clock := ck, hist := s.hist ++ nh }, some v)
-            | _, _, _, _ => ({ s with threads := #[] }, some ("bad unparsable " ++ r))
+            | _, _, _, _ =>
+              -- the scheduler gave up: a thread neither finished nor parked (step bound / watchdog) — "every recorder
+              -- and reader terminates" fails on this schedule
+              if r.startsWith "sched-error" then ({ s with threads := #[] }, some ("bad not-terminating: " ++ r))
+              else ({ s with threads := #[] }, some ("bad unparsable " ++ r))
         else
           let r := runRound s.sh s.clock s.threads es
           ({ s with sh := r.c.sh, clock := r.c.clock, threads := #[] }, some (showRound r))
